@@ -19,10 +19,15 @@ var _ policy.Executor[any] = &executor[any]{}
 
 func (e *executor[R]) PreExecute(exec policy.ExecutionInternal[R]) *common.PolicyResult[R] {
 	if err := e.AcquirePermitWithMaxWait(exec.Context(), e.maxWaitTime); err != nil {
-		if e.onFull != nil && errors.Is(err, ErrFull) {
-			e.onFull(failsafe.ExecutionEvent[R]{
-				ExecutionAttempt: exec,
-			})
+		if errors.Is(err, ErrFull) {
+			if e.onFull != nil {
+				e.onFull(failsafe.ExecutionEvent[R]{
+					ExecutionAttempt: exec,
+				})
+			}
+		} else if canceled, cancelResult := exec.IsCanceledWithResult(); canceled && cancelResult.Error != nil {
+			// Return the cancellation's error, ex: ErrExecutionCanceled, rather than the context's error
+			err = cancelResult.Error
 		}
 		return internal.FailureResult[R](err)
 	}
